@@ -98,6 +98,8 @@ structure M where
   simulName : Val := 2           -- simul_efun_ob->name
   savedMasterName : Val := 0     -- static saved_master_name (simulate.c): what fix_object_names puts back
   savedSimulName : Val := 0      -- static saved_simul_name
+  efunCtx : List Nat := []       -- the contexts efuns keep in file-scope lists across their callbacks (sort_ctx_top / sort_array_ftc,
+                                 -- g_u_list, g_u_m_list): innermost first; every one has a T_ERROR_HANDLER slot that unlinks the HEAD
   hbCur : Val := 0               -- current_heart_beat (backend.c): the object whose heart_beat() is running, 0 = none
   hbOff : List Val := []         -- objects whose heart beat error_handler has switched off (set_heart_beat (ob, 0)), newest first
   deriving Repr, Inhabited
@@ -129,7 +131,9 @@ def fixNamesId : Nat := 0
     unique_array / sort_array / unique_mapping / parse_command only release C memory -/
 def runSlotHandler (id : Nat) (m : M) : M :=
   { m with masterName := if id == fixNamesId then m.savedMasterName else m.masterName,
-           simulName := if id == fixNamesId then m.savedSimulName else m.simulName }
+           simulName := if id == fixNamesId then m.savedSimulName else m.simulName,
+           -- sort_array_unlink / unique_array_error_handler / unique_mapping_error_handler: unlink the head of the list
+           efunCtx := if id == fixNamesId then m.efunCtx else m.efunCtx.tail }
 
 /-- pop_stack: free_svalue runs the handler of a T_ERROR_HANDLER slot -/
 def popStack (m : M) : Option M :=
@@ -509,7 +513,7 @@ def tmpFinish (n : Nat) (r : Res) : Res :=
 def handlerFinish (r : Res) : Res :=
   match r with
   | .ok m1 => match dropTop m1 with
-    | some m2 => .ok m2
+    | some m2 => .ok { m2 with efunCtx := m2.efunCtx.tail }    -- … and the efun unlinks its context by hand
     | none => .crash "value stack underflow" m1
   | r => r
 
@@ -574,7 +578,9 @@ def execOp : Op → M → Res
 def execCore : Op → M → Res
   | .say s, m => .ok { m with out := Ev.say s :: m.out }
   | .tmp n body, m => tmpFinish n (exec body (pushVals n m))
-  | .handler id body, m => handlerFinish (exec body { m with vs := Slot.handler id :: m.vs })
+  | .handler id body, m =>
+    -- the efun links its context into its file-scope list and pushes the slot (ids of efun slots are never `fixNamesId`)
+    handlerFinish (exec body { m with vs := Slot.handler (id + 1) :: m.vs, efunCtx := (id + 1) :: m.efunCtx })
   | .setReg r v, m => .ok (setRegister r v m)
   | .withCg v body, m => withCgFinish m.cg (exec body { m with cg := v })
   | .install site fails, m =>
